@@ -77,7 +77,7 @@ func VerifH_ck() {
 		inner.err = vErr{}
 	}
 	c := &myCodec{protoCodec: inner}
-	msg := &vCodec{}
+	msg := &vMsg{Name: "m"} // a message (of the legacy generated shape)
 	out, err := c.Marshal(msg)
 	verifReach("after marshal")
 	verifAssert(inner.calls == 1 && inner.gotV == interface{}(msg), "C19: underlying codec not called exactly once with the message")
@@ -120,7 +120,7 @@ func VerifH_ck() {
 			}
 		}
 		inner.out = all2[:n2]
-		out2, err2 := c.Marshal(&vCodec{})
+		out2, err2 := c.Marshal(&vMsg{Name: "n"})
 		verifReach("second marshal")
 		verifAssert(err2 == nil && len(out2) == 6+n2, "C19: second Marshal failed or has the wrong length")
 		for i := 0; i < 6+vMaxPayload; i++ {
